@@ -37,7 +37,9 @@ Words == <<<<"n", "u", "l", "l">>, <<"t", "r", "u", "e">>, <<"~">>, <<"0", "x">>
 \* characters outside ASCII and control characters (model of the escape table / literal validity)
 Ext == <<<<"a">>, <<" ">>, <<"\n">>, <<":">>, <<"-">>, <<"<u7>">>, <<"<u27>">>, <<"<u127>">>, <<"<u128>">>, <<"<u133>">>, <<"<u160>">>, <<"<u233>">>,
          <<"<u8232>">>, <<"<u65279>">>, <<"<u65534>">>, <<"<u128512>">>, <<"<u884735>">>, <<"<u884736>">>>>
-Syms == CASE Sigma = "base" -> Base20 [] Sigma = "words" -> Base20 \o Words [] Sigma = "ext" -> Ext
+\* multi-line strings: content lines, empty lines and lines made of blanks only (literal-block decisions)
+Lines == <<<<"a">>, <<"\n">>, <<" ">>, <<" ", "b">>, <<"\t">>, <<"c", " ">>, <<"\n", "\n">>>>
+Syms == CASE Sigma = "base" -> Base20 [] Sigma = "words" -> Base20 \o Words [] Sigma = "ext" -> Ext [] Sigma = "lines" -> Lines
 
 SettingsSeq == <<[compact |-> TRUE, multiline |-> FALSE], [compact |-> TRUE, multiline |-> TRUE],
                  [compact |-> FALSE, multiline |-> FALSE], [compact |-> FALSE, multiline |-> TRUE]>>
